@@ -56,6 +56,13 @@ pub fn replay_case(c: &J) -> Result<(), String> {
 pub fn hostile_values(thorough: bool) -> Vec<LN> {
     let mut v: Vec<LN> = hostile::terms(thorough).into_iter().map(LN::Term).collect();
     v.extend(hostile::sentences());
+    // plus the regular (vocabulary-consistent) lexical term universes of all three formats: these
+    // fold successfully with their own folder - nested multi-component compounds, wide compounds -
+    // and are foreign vocabulary for the other two folders
+    for f in fmts::all() {
+        v.extend(crate::lexu::u_term(&f, 0, false).into_iter().map(LN::Term));
+        v.extend(crate::lexu::u_sent(&f).into_iter().step_by(if thorough { 1 } else { 11 }));
+    }
     v
 }
 
